@@ -13,8 +13,8 @@ from verif import h
 
 PROPERTY = "C15"
 B = h.bounds(
-    quick=dict(SHAPES=6, NCTX=3, GV=2, NKEYS=4, ASH=6, DSH=2),
-    thorough=dict(SHAPES=12, NCTX=5, GV=3, NKEYS=5, ASH=8, DSH=3),
+    quick=dict(SHAPES=6, NCTX=4, GV=2, NKEYS=4, ASH=6, DSH=2),
+    thorough=dict(SHAPES=12, NCTX=6, GV=3, NKEYS=5, ASH=8, DSH=3),
 )
 LEAVES = ["'a'", "'a.b'", "int", "str", "total predicate", "raising predicate"]
 SHAPES = ["leaf", "[l0, l1]", "(l0, l1)", "Not(l0)", "[(l0, l1), l2]", "([l0, l1], Not(l2))",
@@ -57,7 +57,7 @@ def raising(v):
 
 
 LEAF = ["a", "a.b", int, str, total, raising]
-CTX = [None, {"a": 1}, {"a": {"b": 2}}, {"a": "b"}, {"b": 1}]
+CTX = [None, {"a": 1}, {"a": {"b": 2}}, {"a": None}, {"a": "b"}, {"b": 1}]
 
 
 def ref_leaf(i, value):
@@ -204,7 +204,7 @@ def check_filter(shape: int, l0: int, l1: int, roe: bool, xs: List[int], c0: int
 
 
 def _one(v):
-    return True if v == 1 else False
+    return True if (v == 1 or v is None) else False
 
 
 def _boom(v):
@@ -240,7 +240,7 @@ def check_select_context(key: int, pred: int, roe: bool, c: int, x: int) -> bool
         return h.ok(got == ("ok", False))
     if pred == 1:
         return h.ok(got == (("raises",) if r else ("ok", False)))
-    return h.ok(got == ("ok", cur == 1))
+    return h.ok(got == ("ok", cur == 1 or cur is None))
 
 
 # --------------------------------------------------------------------- GroupBy
@@ -290,7 +290,7 @@ def projection(ctx, group_by, merge, nodes=False):
 
 
 def check_group_by(gmask: int, mmask: int, n: int, a0: int, d0: int, a1: int, d1: int,
-                   a2: int, d2: int) -> bool:
+                   a2: int, d2: int, bare: bool) -> bool:
     """
     pre: 0 <= gmask < 2 ** B.NKEYS and 0 <= mmask < 2 ** B.NKEYS
     pre: 2 <= n <= B.GV
@@ -303,12 +303,21 @@ def check_group_by(gmask: int, mmask: int, n: int, a0: int, d0: int, a1: int, d1
     mmask = h.concrete(mmask, 0, 2 ** B.NKEYS - 1)
     group_by = tuple([KEYS[i] for i in range(5) if gmask & (1 << i)])
     merge = tuple([KEYS[i] for i in range(5) if mmask & (1 << i)])
+    ref_group_by, ref_merge = group_by, merge
     if not group_by and not merge:
         return True
     if gmask & mmask:
         # a key listed in both sets is contradictory ("whose longest listed
         # prefix is a group_by entry" has no answer): outside the claim
         return True
+    if bare:
+        # the same key sets spelled as bare strings / other empty containers
+        if len(group_by) == 1:
+            group_by = group_by[0]
+        if len(merge) == 1:
+            merge = merge[0]
+        elif len(merge) == 0 and group_by != "":
+            merge = []
     try:
         gb = GroupBy(group_by, merge)
     except LenaValueError:
@@ -337,8 +346,8 @@ def check_group_by(gmask: int, mmask: int, n: int, a0: int, d0: int, a1: int, d1
         for j in range(i + 1, n):
             # "key path" read as leaves only, or as every node: the
             # implementation must agree with at least one reading
-            s1 = projection(vals[i][1], group_by, merge, False) == projection(vals[j][1], group_by, merge, False)
-            s2 = projection(vals[i][1], group_by, merge, True) == projection(vals[j][1], group_by, merge, True)
+            s1 = projection(vals[i][1], ref_group_by, ref_merge, False) == projection(vals[j][1], ref_group_by, ref_merge, False)
+            s2 = projection(vals[i][1], ref_group_by, ref_merge, True) == projection(vals[j][1], ref_group_by, ref_merge, True)
             impl = where[i] == where[j]
             if impl != s1 and impl != s2:
                 return h.ok(False)
@@ -355,6 +364,6 @@ CONDITIONS = [
     dict(fn="check_select_context", budget=(60, 300),
          smoke=["check_select_context(0, 0, True, 1, 5)", "check_select_context(1, 1, False, 2, 5)"]),
     dict(fn="check_group_by", shards=(16, 32), budget=(80, 1500),
-         smoke=["check_group_by(2, 1, 2, 1, 0, 5, 0, 0, 0)", "check_group_by(1, 4, 2, 2, 0, 1, 0, 0, 0)",
-                "check_group_by(4, 1, 2, 2, 1, 2, 0, 0, 0)", "check_group_by(1, 4, 2, 1, 1, 5, 1, 0, 0)"]),
+         smoke=["check_group_by(2, 1, 2, 1, 0, 5, 0, 0, 0, False)", "check_group_by(1, 4, 2, 2, 0, 1, 0, 0, 0, False)",
+                "check_group_by(4, 1, 2, 2, 1, 2, 0, 0, 0, False)", "check_group_by(1, 4, 2, 1, 1, 5, 1, 0, 0, False)", "check_group_by(1, 0, 2, 1, 1, 5, 1, 0, 0, True)"]),
 ]
